@@ -46,8 +46,11 @@ func hostServer(args []string) int {
 func hostClient(args []string) int {
 	rs := svc.New()
 	var cl svc.Client
-	closer, err := jsonrpc.NewMergeClient(context.Background(), "ws://"+args[0], "S", []interface{}{&cl}, nil,
-		jsonrpc.WithClientHandler("R", &svc.RevHandler{Identity: "H", S: rs}), jsonrpc.WithNoReconnect())
+	opts := []jsonrpc.Option{jsonrpc.WithNoReconnect()}
+	if len(args) < 2 || args[1] != "plain" {
+		opts = append(opts, jsonrpc.WithClientHandler("R", &svc.RevHandler{Identity: "H", S: rs}))
+	}
+	closer, err := jsonrpc.NewMergeClient(context.Background(), "ws://"+args[0], "S", []interface{}{&cl}, nil, opts...)
 	if err != nil {
 		fmt.Println("DIALFAIL", err)
 		return 3
